@@ -620,9 +620,20 @@ class ColEval:
             if d == "pandas.to_numeric":
                 src = self.expr(e.args[0])
                 mode = "raise"
+                single = False
                 for k in e.keywords:
                     if k.arg == "errors" and isinstance(k.value, ast.Constant):
                         mode = k.value.value
+                    elif k.arg == "downcast" and isinstance(k.value, ast.Constant) and k.value.value in (None, "integer", "signed", "unsigned"):
+                        pass  # whole numbers into the smallest integer type that holds them: every value kept
+                    elif k.arg == "downcast" and isinstance(k.value, ast.Constant) and k.value.value == "float":
+                        single = True  # float64 -> float32: about seven significant digits are left
+                    else:
+                        raise Unsupported(f"to_numeric option {k.arg} is outside the model of the conversion", e)
+                if single:
+                    if src[0] == "col" and src[1] != "numeric" and mode == "raise":
+                        raise ColEval.Raise()
+                    return ("num in single precision", "none")
                 if src[0] != "col":
                     raise Unsupported("to_numeric of a converted column", e)
                 kind = src[1]
@@ -679,7 +690,8 @@ def o24(ctx):
         if got != want[kind]:
             ctx.finding(RD if conv is None else f"{RD}.{target.id}", conv[1] if conv else ap,
                         f"a {kind} column must come back as {'numbers' if kind == 'numeric' else 'the unchanged text column'}; "
-                        f"the conversion yields {got}" + (" (text tokens silently become NaN)" if isinstance(got, tuple) and got[0] == "num" and kind != "numeric" else ""),
+                        f"the conversion yields {got}" + (" (text tokens silently become NaN)" if isinstance(got, tuple) and got[0] == "num" and kind != "numeric" else "")
+                        + (" (values such as 2010.603132 come back as 2010.6031494: not equal after rounding to 6 decimals)" if isinstance(got, tuple) and "single" in got[0] else ""),
                         conv[1] if conv else ap, conv[0] if conv else m)
     # applied to every frame and stored back
     par = m.parents.get(ap)
